@@ -50,52 +50,72 @@ example (ops : FloatOps) : parse ops {} [123, 34, 107, 34, 58, 49, 44, 34, 107, 
 example (ops : FloatOps) : exampleText.denote ops = .obj [([0x61, 0xC3, 0xA9, 0xF0, 0x9F, 0x98, 0x80], .int 0)] := by
   rfl
 
-/-- **J2 (round trip, member order kept).** For every value the C++ type can hold (`Json.Good`: `int64` integers, doubles for
-    which `_formatDouble`/`strtod` round-trip — i.e. finite ones, given correctly rounded libc —, objects with distinct keys), every
-    pretty/compact setting and every indentation made of JSON white space, if the value is within the parse limits then parsing
-    its serialization yields the value itself (member order included). -/
-theorem J2_roundtrip (ops : FloatOps) (lim : Limits) (o : Opts) (wi : Ws) (hind : wi.render = o.indent)
-    (hns : o.sortKeys = false) (v : Json) (hg : v.Good ops) (hw : v.within lim 0 0) :
+/-- **J2 (`_formatDouble`, the repository's own logic).** From the four explicit libc facts `LibcOk` (the `%.{15,16,17}g` texts are
+    number tokens; the 17-digit text reads back exactly; the sign of a zero survives; appending `.0` to an integer-looking token does
+    not change its value) it is PROVED that `Json::_formatDouble` — the precision loop that returns the first text that reads back
+    (`strtod(buf) == d`, double equality), else the 17-digit text; the `find_first_of(".eE")` test; the `.0` suffix — yields, for every
+    finite double, a JSON number token WITH a fraction or an exponent (so it re-parses as a Double, not an Int) that `strtod` reads
+    back to the same bit pattern. -/
+theorem J2_formatDouble (ops : FloatOps) (hl : LibcOk ops) (d : UInt64) (hd : isFiniteBits d = true) :
+    ∃ n : SNum, n.ok ∧ n.isFloat = true ∧ n.render = formatDouble ops d ∧ ops.strtod (formatDouble ops d) = d :=
+  formatDouble_roundtrips hl d hd
+
+/-- the libc hypotheses are satisfiable: a toy libc (bit pattern printed in decimal + `e0`) has them -/
+theorem LibcOk_satisfiable : LibcOk toyOps := libcOk_toy
+
+/-- **J2 (round trip, member order kept).** For every value the C++ type can hold that is "made of finite numbers" (`Json.Good`:
+    `int64` integers, FINITE doubles, objects with distinct keys), every pretty/compact setting and every indentation made of JSON white
+    space, if the value is within the parse limits then parsing its serialization yields the value itself (member order included).
+    The only assumption about floating point is `LibcOk`. -/
+theorem J2_roundtrip (ops : FloatOps) (hl : LibcOk ops) (lim : Limits) (o : Opts) (wi : Ws) (hind : wi.render = o.indent)
+    (hns : o.sortKeys = false) (v : Json) (hg : v.Good) (hw : v.within lim 0 0) :
     parse ops lim (serialize ops o 0 v) = .ok v :=
-  parse_serialize ops lim o wi hind hns v hg hw
+  parse_serialize ops hl lim o wi hind hns v hg hw
 
 /-- **J2 (round trip with `sortKeys`).** The sorted serialization parses back to `sortDeep v` — the same value with the members of
-    every object in key order — and `sortDeep v` equals `v` for `Json::operator==` (`eqv`: `unordered_map` equality). -/
-theorem J2_roundtrip_sorted (ops : FloatOps) (lim : Limits) (o : Opts) (wi : Ws) (hind : wi.render = o.indent)
-    (v : Json) (hg : v.Good ops) (hw : v.within lim 0 0) :
+    every object in key order — and `sortDeep v` equals `v` for `Json::operator==` (`eqv`: `std::variant` / `unordered_map` equality,
+    doubles with `operator==`). -/
+theorem J2_roundtrip_sorted (ops : FloatOps) (hl : LibcOk ops) (lim : Limits) (o : Opts) (wi : Ws) (hind : wi.render = o.indent)
+    (v : Json) (hg : v.Good) (hw : v.within lim 0 0) :
     parse ops lim (serialize ops { o with sortKeys := true } 0 v) = .ok (sortDeep v) ∧ eqv v (sortDeep v) = true :=
-  parse_serialize_sorted ops lim o wi hind v hg hw
+  parse_serialize_sorted ops hl lim o wi hind v hg hw
 
-/-- non-vacuity of J2: a nested value with a control character, a quote, a negative integer and a double; `fmt`/`strtod` are a
-    toy pair that round-trips one double -/
-def exampleOps : FloatOps := ⟨fun _ => 7, fun _ => [0x31, 0x2E, 0x35]⟩
+/-- non-vacuity of J2/J3: a nested value with a control character, a quote, a two-byte UTF-8 character, a negative integer and a
+    finite double -/
 def exampleValue : Json :=
   .obj [([0x62], .arr [.int (-5), .str [0x01, 0x22, 0xC3, 0xA9], .dbl 7, .null]), ([0x61], .bool true)]
 
-example : exampleValue.Good exampleOps ∧ exampleValue.within {} 0 0 ∧ (∃ wi : Ws, wi.render = ({} : Opts).indent) := by
-  refine ⟨?_, ?_, ⟨[.sp, .sp], rfl⟩⟩
-  · simp only [exampleValue, Json.Good, Json.GoodMembers, Json.GoodList, RoundTrips]
-    refine ⟨by decide, ⟨⟨by omega, by omega⟩, trivial, ?_, trivial, trivial⟩, trivial, trivial⟩
-    exact ⟨⟨false, 1, some [0x35], none⟩, by simp [SNum.ok, Digits1, isDigit], rfl,
-      by simp [SNum.render, SNum.renderFrac, SNum.renderExp, natToDec_digit, exampleOps, b8], rfl⟩
+example : exampleValue.Good ∧ exampleValue.within {} 0 0 ∧ exampleValue.utf8 ∧ (∃ wi : Ws, wi.render = ({} : Opts).indent) := by
+  refine ⟨?_, ?_, ?_, ⟨[.sp, .sp], rfl⟩⟩
+  · simp only [exampleValue, Json.Good, Json.GoodMembers, Json.GoodList]
+    exact ⟨by decide, ⟨⟨by omega, by omega⟩, trivial, by decide, trivial, trivial⟩, trivial, trivial⟩
   · simp [exampleValue, Json.within, Json.withinMembers, Json.withinList, Gen.Json.depthMaxDefault, Gen.Json.membersMaxDefault,
       Gen.Json.arrayItemsMaxDefault, Gen.Json.stringLengthMaxDefault]
+  · simp only [exampleValue, Json.utf8, Json.utf8Members, Json.utf8List]
+    exact ⟨⟨['b'], by decide⟩, ⟨trivial, ⟨[Char.ofNat 1, '"', 'é'], by decide⟩, trivial, trivial, trivial⟩, ⟨['a'], by decide⟩, trivial, trivial⟩
 
-/-- **J3 (the serializer's output is RFC 8259 text).** For every good value and every option set with white-space indentation the
-    output is the rendering of a well-formed syntax tree (which denotes the value, resp. `sortDeep` of it). -/
-theorem J3_output_in_grammar (ops : FloatOps) (o : Opts) (wi : Ws) (hind : wi.render = o.indent) (v : Json) (hg : v.Good ops) :
-    ∃ t : SVal, t.ok ∧ t.render = serialize ops o 0 v ∧ t.denote ops = (if o.sortKeys then sortDeep v else v) := by
+/-- **J3 (the serializer's output is RFC 8259 text, in the strict sense).** For every good value whose strings and keys are well-formed
+    UTF-8 and every option set with white-space indentation, the output is the rendering of a syntax tree `t` that is well-formed
+    (`ok`), STRICT (`SVal.strict`: every string and key is RFC 8259 `*char` — escapes and unescaped characters that are UTF-8 encoded
+    scalar values ≥ U+0020 other than `"` and `\`; so control characters are always escaped and the raw bytes are well-formed UTF-8),
+    and denotes the value (resp. `sortDeep` of it). -/
+theorem J3_output_in_grammar (ops : FloatOps) (hl : LibcOk ops) (o : Opts) (wi : Ws) (hind : wi.render = o.indent) (v : Json)
+    (hg : v.Good) (hu : v.utf8) :
+    ∃ t : SVal, t.ok ∧ t.strict ∧ t.render = serialize ops o 0 v ∧ t.denote ops = (if o.sortKeys then sortDeep v else v) := by
   cases hs : o.sortKeys with
   | false =>
-    obtain ⟨t, hr, hok, hd, -⟩ := serialize_tree ops o wi hind hs v 0 hg
-    exact ⟨t, hok, hr, by simpa using hd⟩
+    obtain ⟨t, hr, hok, hd, -, hst⟩ := serialize_tree ops o wi hind hl hs v 0 hg
+    exact ⟨t, hok, hst hu, hr, by simpa using hd⟩
   | true =>
-    obtain ⟨h1, h2, -, -⟩ := sortP_all ops o v
-    obtain ⟨t, hr, hok, hd, -⟩ := serialize_tree ops { o with sortKeys := false } wi hind rfl (sortDeep v) 0 (h2 hg)
-    refine ⟨t, hok, ?_, by simpa using hd⟩
+    obtain ⟨h1, h2, -, -, h5⟩ := sortP_all ops o v
+    obtain ⟨t, hr, hok, hd, -, hst⟩ := serialize_tree ops { o with sortKeys := false } wi hind hl rfl (sortDeep v) 0 (h2 hg)
+    refine ⟨t, hok, hst (h5 hu), ?_, by simpa using hd⟩
     rw [hr, ← h1 0]
     have : ({ o with sortKeys := true } : Opts) = o := by cases o; simp_all
     rw [this]
+
+/-- the strict string grammar is inside the grammar J1 is proved for -/
+theorem J3_strict_is_ok (s : List StrItem) (h : StrictItems s) : ∀ i ∈ s, i.ok := strictItems_ok h
 
 /-- **J4 (robustness: error position, totality).** For ARBITRARY bytes, limits and float primitives: a failure reports an offset
     inside the input (`≤ length`), and it is a parser error, never the model's "budget exhausted" outcome — the recursion bounds of
@@ -105,8 +125,8 @@ theorem J4_error_offset (ops : FloatOps) (lim : Limits) (bs : Bytes) (k : ErrKin
     (h : parse ops lim bs = .error (k, off)) : off ≤ bs.length ∧ k ≠ .fuel :=
   parse_error_offset ops lim bs h
 
-example : parse ⟨fun _ => 0, fun _ => []⟩ {} [0x22, 0x5C, 0x75, 0x30, 0x30] = .error (.unicode, 2) := by rfl
-example : parse ⟨fun _ => 0, fun _ => []⟩ {} [0x7B] = .error (.quote, 1) := by rfl
+example : parse ⟨fun _ => 0, fun _ _ => []⟩ {} [0x22, 0x5C, 0x75, 0x30, 0x30] = .error (.unicode, 2) := by rfl
+example : parse ⟨fun _ => 0, fun _ _ => []⟩ {} [0x7B] = .error (.quote, 1) := by rfl
 
 /-- **J4 (limits).** For ARBITRARY bytes: whatever is accepted respects the limits — every value sits at depth `≤ depthMax`, every
     array has `≤ arrayItemsMax` elements, every object `≤ membersMax` members, every string and key `≤ stringLengthMax + 4` bytes (the
@@ -117,7 +137,7 @@ theorem J4_limits (ops : FloatOps) (lim : Limits) (bs : Bytes) (v : Json) (h : p
   parse_accepted ops lim bs v h
 
 /-- the slack is attained: limit 0, the one-escape string `"€"` is accepted with 3 bytes -/
-example : parse ⟨fun _ => 0, fun _ => []⟩ { stringLengthMax := 0 } [0x22, 0x5C, 0x75, 0x32, 0x30, 0x61, 0x63, 0x22]
+example : parse ⟨fun _ => 0, fun _ _ => []⟩ { stringLengthMax := 0 } [0x22, 0x5C, 0x75, 0x32, 0x30, 0x61, 0x63, 0x22]
     = .ok (.str [0xE2, 0x82, 0xAC]) := by rfl
 
 /-- **J5 (duplicate keys: the last one wins).** For every object text within the limits, the decoded object maps each key to the
@@ -185,6 +205,13 @@ def expectedMessages : List (String × List String) := [
   ("_parseArray", ["Expected '['", ErrKind.arrsize.message, ErrKind.eoa.message, ErrKind.arrsep.message]),
   ("_parseObject", ["Expected '{'", ErrKind.objsize.message, ErrKind.colon.message, ErrKind.eoo.message, ErrKind.objsep.message])]
 
+/-- nesting depth up to which the default `depthMax` may grow without the check having to be re-justified (see `gen_conformance`) -/
+def stackSafeDepth : Nat := 1000
+/-- largest default `arrayItemsMax` / `membersMax` the boundary stream of props/c13.py reaches exactly -/
+def sizeCap : Nat := 100000
+/-- largest default `stringLengthMax` the boundary stream reaches exactly -/
+def stringCap : Nat := 2000000
+
 /-- `_parseHex4`'s digit ranges as the model's `hexVal` -/
 def hexValGen (b : UInt8) : Option Nat :=
   Gen.Json.hexRanges.findSome? fun (lo, hi, base) => if lo ≤ b.toNat ∧ b.toNat ≤ hi then some (b.toNat - lo + base) else none
@@ -202,7 +229,15 @@ theorem gen_conformance :
     (Gen.Json.serControlFormat, Gen.Json.fmtFormat, Gen.Json.fmtNonFinite) = ("%04x", "%.*g", "null") ∧
     (Gen.Json.fmtPrecLo = 15 ∧ Gen.Json.fmtPrecHi = 17 ∧ Gen.Json.fmtMarkers = [0x2E, 0x65, 0x45] ∧ Gen.Json.fmtSuffix = [0x2E, 0x30]) ∧
     Gen.Json.serArrayLiterals = ["[]", "[", "\n", ",", "\n", "]"] ∧
-    Gen.Json.serObjectLiterals = ["{}", "{", "\n", ":", " ", ",", "\n", "}"] := by
-  refine ⟨by decide, by decide, by decide, by decide, by decide +kernel, by decide, by decide, by decide, by decide, by decide⟩
+    Gen.Json.serObjectLiterals = ["{}", "{", "\n", ":", " ", ",", "\n", "}"] ∧
+    -- the <cctype> predicates get an `unsigned char`; `_formatDouble`'s buffer is an automatic array big enough for %.17g
+    (Gen.Json.charClassArg = "unsigned char" ∧ Gen.Json.fmtBufAutomatic = true ∧ 25 ≤ Gen.Json.fmtBufSize) ∧
+    -- the DEFAULT limits stay where this check exercises them: nesting is bounded by the measured stack-safe depth (the recursive
+    -- descent uses one C++ stack frame chain per level; props/c13.py measures the bytes per level of the real parser on every run and
+    -- checks `stackSafeDepth * bytes per level <= 1/4 of the default 8 MiB stack`), sizes by the generator's boundary stream
+    (Gen.Json.depthMaxDefault ≤ stackSafeDepth ∧ Gen.Json.arrayItemsMaxDefault ≤ sizeCap ∧ Gen.Json.membersMaxDefault ≤ sizeCap ∧
+      Gen.Json.stringLengthMaxDefault ≤ stringCap) := by
+  refine ⟨by decide, by decide, by decide, by decide, by decide +kernel, by decide, by decide, by decide, by decide, by decide,
+    by decide, by decide⟩
 
 end Iora.C13
